@@ -30,9 +30,9 @@ PLAN = {
     'thorough': {
         'specs': [('DagE', 4, 5), ('DagD', 3, 4), ('DagC', 3, 4)],
         'shapes': [('DagE', ALL_ATOMS), ('DagD', QUICK_ATOMS)],
-        'pairs': [('DagE', 4, 5, 8, 8, 6),       # every pair, 8 slices
-                  ('DagD', 3, 4, 2, 2, 6),
-                  ('DagC', 3, 4, 2, 2, 6)],
+        'pairs': [('DagE', 4, 5, 8, 8, 5),       # every pair, 8 slices
+                  ('DagD', 3, 3, 1, 1, 6),
+                  ('DagC', 3, 3, 1, 1, 6)],
         'file': 20000,
     },
 }
